@@ -14,21 +14,22 @@ import (
 )
 
 type Cfg struct {
-	Kind     string // emit | unfold | throttle
-	Cap      int    // Emit/Unfold: cap argument; Throttling: capacity of the input channel
-	Freq     int    // Emit: frequency in ticks (1 tick = 1ns of virtual time)
-	Mode     string // Emit: pure | lift | try
-	Mask     int    // Emit: failing indices
-	Step     string // Unfold: inc | dbl | const
-	ConsGaps []int  // consumer: sleep ConsGaps[i] before the i-th receive; after the script it cancels (generators) or keeps draining with gap 0 (throttle)
-	Drain    bool   // generator consumer: after its script and its cancel it keeps receiving until the channel closes
-	CancelAt int    // >=0: a canceller thread sleeps that long, then cancels
-	Ops      int    // Throttling
-	Interval int    // Throttling, ticks
-	K        int    // Throttling: number of input elements 0..K-1
-	ProdGap  int    // Throttling: producer sleeps this long before every send
-	NoErr    bool   // generators: nobody reads the error channel
-	Timeout  int    // >0: the context carries a deadline that many ticks away (instead of being cancelled by a thread)
+	Kind      string // emit | unfold | throttle
+	Cap       int    // Emit/Unfold: cap argument; Throttling: capacity of the input channel
+	Freq      int    // Emit: frequency in ticks (1 tick = 1ns of virtual time)
+	Mode      string // Emit: pure | lift | try
+	Mask      int    // Emit: failing indices
+	Step      string // Unfold: inc | dbl | const
+	ConsGaps  []int  // consumer: sleep ConsGaps[i] before the i-th receive; after the script it cancels (generators) or keeps draining with gap 0 (throttle)
+	Drain     bool   // generator consumer: after its script and its cancel it keeps receiving until the channel closes
+	CancelAt  int    // >=0: a canceller thread sleeps that long, then cancels
+	Ops       int    // Throttling
+	Interval  int    // Throttling, ticks
+	K         int    // Throttling: number of input elements 0..K-1
+	ProdGap   int    // Throttling: producer sleeps this long before every send
+	NoErr     bool   // generators: nobody reads the error channel
+	Timeout   int    // >0: the context carries a deadline that many ticks away (instead of being cancelled by a thread)
+	PreCancel bool   // the context is already cancelled when the generator is created (nobody receives)
 }
 
 func Bit(m, i int) bool { return m&(1<<i) != 0 }
@@ -58,8 +59,15 @@ func Scenario(c Cfg) {
 			}
 		}()
 	}
+	if c.PreCancel {
+		env.Log("cancel")
+		cancel()
+	}
 	// generator consumer: follows its script, then cancels and leaves
 	genConsumer := func(out <-chan int) {
+		if c.PreCancel {
+			return
+		}
 		go func() {
 			for _, g := range c.ConsGaps {
 				if g > 0 {
